@@ -273,10 +273,13 @@ def finish (q : Player) (t : Nat) : Player :=
 
 section
 variable (prog : Bytes)
-variable (short : ∀ k, liveUpTo prog (k + 1) → (chain prog k).exec.trActive = true → (chain prog k).exec.trDuration ≤ 16777216)
+-- the horizon: every timestamp asked for is at most `H`; the hypotheses about the program concern the chain up to `H` only
+variable (H : Nat)
+variable (short : ∀ k, liveUpTo prog (k + 1) → (chain prog k).current ≤ H → (chain prog k).exec.trActive = true →
+  (chain prog k).exec.trDuration ≤ 16777216)
 include short
 
-theorem final_inv (t : Nat) (q : Player) (h : LInv prog t q) (hq : t ≤ q.next) : Inv prog (finish q t) := by
+theorem final_inv (t : Nat) (htH : t ≤ H) (q : Player) (h : LInv prog t q) (hq : t ≤ q.next) : Inv prog (finish q t) := by
   rcases h with ⟨hn, hr⟩ | ⟨k, hk, hl, hs, hn, hc⟩ | ⟨m, hm, hl, he, hd, hc⟩
   · have ht : t = 0 := by omega
     subst ht
@@ -331,7 +334,7 @@ theorem final_inv (t : Nat) (q : Player) (h : LInv prog t q) (hq : t ≤ q.next)
         intro ha
         obtain ⟨_, y, _⟩ := hs.fade ha
         rw [y]
-        exact short k hl (hs.trActive.symm.trans ha)
+        exact short k hl (le_trans hc htH) (hs.trActive.symm.trans ha)
       obtain ⟨e1, e2⟩ := interior_step gq hqne hc hlt hsh
       right; left
       refine ⟨k, hk, hl, ?_, ?_, hc, (by show t ≤ (chain prog k).next; rw [← hqw]; omega),
@@ -379,7 +382,7 @@ theorem seek_eq (p : Player) (t fuel : Nat) :
   cases seekLoop t fuel (if t < p.current then { exec := rewindExec p.exec, current := 0, next := 0 } else p) <;> rfl
 
 /-- **a seek re-establishes the invariant** -/
-theorem seek_inv (p r : Player) (t fuel : Nat) (h : Inv prog p) (hs : p.seek t fuel = .ok r) :
+theorem seek_inv (p r : Player) (t fuel : Nat) (htH : t ≤ H) (h : Inv prog p) (hs : p.seek t fuel = .ok r) :
     Inv prog r ∧ r.current = t := by
   rw [seek_eq] at hs
   cases hl : seekLoop t fuel (if t < p.current then { exec := rewindExec p.exec, current := 0, next := 0 } else p) with
@@ -391,7 +394,7 @@ theorem seek_inv (p r : Player) (t fuel : Nat) (h : Inv prog p) (hs : p.seek t f
       cases hs; rfl
     subst this
     obtain ⟨hI, hle⟩ := seekLoop_inv (LInv prog t) (adv_linv prog t) fuel _ _ (inv_start prog p h t) hl
-    exact ⟨final_inv prog short t q hI hle, rfl⟩
+    exact ⟨final_inv prog H short t htH q hI hle, rfl⟩
 
 end
 
@@ -404,27 +407,41 @@ variable (prog : Bytes)
 /-- `t` is not the start instant of a command of the running program (wake-ups after the end are no command starts) -/
 def NotInstant (t : Nat) : Prop := ∀ k, liveUpTo prog (k + 1) → (chain prog k).next ≠ t
 
-theorem live_strict {prog : Bytes} {t k : Nat} (hni : NotInstant prog t) (hk : 1 ≤ k) (hl : liveUpTo prog (k + 1))
+/-- the same, asked only of the chain points that start by the horizon `H` -/
+def NotInstantUpTo (H t : Nat) : Prop := ∀ k, liveUpTo prog (k + 1) → (chain prog k).current ≤ H → (chain prog k).next ≠ t
+
+theorem NotInstant.upTo {prog : Bytes} {t : Nat} (h : NotInstant prog t) (H : Nat) : NotInstantUpTo prog H t :=
+  fun k hl _ => h k hl
+
+theorem live_strict {prog : Bytes} {H t k : Nat} (hni : NotInstantUpTo prog H t) (htH : t ≤ H) (hk : 1 ≤ k) (hl : liveUpTo prog (k + 1))
     (h1 : (chain prog k).current ≤ t) (h2 : t ≤ (chain prog k).next) :
     (chain prog k).current < t ∧ t < (chain prog k).next := by
   obtain ⟨j, rfl⟩ : ∃ j, k = j + 1 := ⟨k - 1, by omega⟩
-  have a := hni (j + 1) hl
-  have b := hni j (hl.mono (by omega))
+  have a := hni (j + 1) hl (le_trans h1 htH)
+  have hjc : (chain prog j).current ≤ H := by
+    by_cases hj0 : j = 0
+    · subst hj0; exact Nat.zero_le _
+    · have G := chain_good prog j (by omega) (hl.mono (by omega))
+      have h3 := G.t.le
+      rw [← G.next_eq] at h3
+      rw [chain_current] at h1
+      omega
+  have b := hni j (hl.mono (by omega)) hjc
   rw [chain_current] at h1 ⊢
   omega
 
 /-- **two players that satisfy the invariant at the same timestamp, which is not a start instant, look the same** -/
-theorem inv_unique (r r' : Player) (t : Nat) (h : Inv prog r) (h' : Inv prog r') (ht : r.current = t) (ht' : r'.current = t)
-    (hni : NotInstant prog t) : obs3 r.exec = obs3 r'.exec := by
-  have h0 : t ≠ 0 := fun h0 => hni 0 (fun i h1 h2 => by omega) (by rw [chain0_next, h0])
+theorem inv_unique (H : Nat) (r r' : Player) (t : Nat) (htH : t ≤ H) (h : Inv prog r) (h' : Inv prog r') (ht : r.current = t)
+    (ht' : r'.current = t) (hni : NotInstantUpTo prog H t) : obs3 r.exec = obs3 r'.exec := by
+  have h0 : t ≠ 0 := fun h0 => hni 0 (fun i h1 h2 => by omega) (Nat.zero_le _) (by rw [chain0_next, h0])
   rcases h with ⟨hc, _, _⟩ | ⟨k, hk, hl, hs, hn, hc1, hc2, hc3, hcol⟩ | ⟨m, hm, hl, he, hd, hc⟩
   · omega
   · rw [ht] at hc1 hc2 hcol
-    obtain ⟨b1, b2⟩ := live_strict hni hk hl hc1 hc2
+    obtain ⟨b1, b2⟩ := live_strict hni htH hk hl hc1 hc2
     rcases h' with ⟨hc', _, _⟩ | ⟨k', hk', hl', hs', hn', hc1', hc2', hc3', hcol'⟩ | ⟨m', hm', hl', he', hd', hc'⟩
     · omega
     · rw [ht'] at hc1' hc2' hcol'
-      obtain ⟨b1', b2'⟩ := live_strict hni hk' hl' hc1' hc2'
+      obtain ⟨b1', b2'⟩ := live_strict hni htH hk' hl' hc1' hc2'
       have hkk : k = k' := by
         rcases Nat.lt_trichotomy k k' with hlt | heq | hgt
         · have := chain_next_le_current prog k k' hlt (hl'.mono (by omega)); omega
@@ -445,7 +462,7 @@ theorem inv_unique (r r' : Player) (t : Nat) (h : Inv prog r) (h' : Inv prog r')
     rcases h' with ⟨hc', _, _⟩ | ⟨k', hk', hl', hs', hn', hc1', hc2', hc3', hcol'⟩ | ⟨m', hm', hl', he', hd', hc'⟩
     · omega
     · rw [ht'] at hc1' hc2'
-      obtain ⟨b1', b2'⟩ := live_strict hni hk' hl' hc1' hc2'
+      obtain ⟨b1', b2'⟩ := live_strict hni htH hk' hl' hc1' hc2'
       have hkm : k' < m := by
         by_contra hge
         have := hl' m hm (by omega)
